@@ -147,7 +147,8 @@ Definition spec_member_with (d : departures) (sv : spec_rules) (a : auth_input) 
       match ai_create a with
       | None => false
       | Some c =>
-          let dom := match m_mapping m with Some md => md | None => ai_sender_domain a end in
+          let dom := match (if sr_pseudo sv then m_mapping m else None) with
+                     | Some md => md | None => ai_sender_domain a end in
           match dom with
           | None => false
           | Some dm =>
@@ -255,7 +256,7 @@ Definition literal_level_checks (sv : spec_rules) (x : spec_extra) (L : Z) (send
 Definition effective_level_checks (sv : spec_rules) (L : Z) (sender : bytes) (old new : pl_content) : bool :=
   forallb (fun g : pl_content -> Z => changed_ok L (g old) (g new))
           [pl_users_default; pl_events_default; pl_state_default; pl_ban; pl_redact; pl_kick; pl_invite]
-  && forallb (fun ty => changed_ok L (pl_event_level old ty false) (pl_event_level new ty false))
+  && forallb (fun ty => changed_ok L (pl_event_entry old ty) (pl_event_entry new ty))
              (map fst (pl_events old) ++ map fst (pl_events new))
   && (negb (sr_notifications sv) ||
       forallb (fun n => changed_ok L (pl_notif_level old n) (pl_notif_level new n))
@@ -295,12 +296,11 @@ Definition spec_redaction_with (d : departures) (sv : spec_rules) (a : auth_inpu
       let own_domain := if d8 d then ai_sender_domain a else sx_event_id_domain x in
       if negb old_rules then true
       else
-        match ai_redacts_domain a, own_domain with
-        | Some rd, Some dm =>
-            (pl_redact (spec_pl_with d sv a c x) <=? spec_level_with d sv a c x (ai_sender a))
-            || bytes_eqb dm rd
-        | _, _ => false
-        end
+        (pl_redact (spec_pl_with d sv a c x) <=? spec_level_with d sv a c x (ai_sender a))
+        || match ai_redacts_domain a, own_domain with
+           | Some rd, Some dm => bytes_eqb dm rd
+           | _, _ => false
+           end
   | None => false
   end.
 
@@ -363,8 +363,7 @@ Definition cond4 (sv : spec_rules) (a : auth_input) (x : spec_extra) : bool :=
   | None => false
   end.
 
-(* 5: a power-levels event that adds or removes a named key or a map entry (or carries an events
-   entry for m.room.third_party_invite, whose effective level is the invite level) *)
+(* 5: a power-levels event that adds or removes a named key or a map entry *)
 Definition subset_keys (l1 l2 : list bytes) : bool := forallb (fun k => mem_bytes k l2) l1.
 Definition same_keys (l1 l2 : list bytes) : bool := subset_keys l1 l2 && subset_keys l2 l1.
 
@@ -379,7 +378,6 @@ Definition cond5 (a : auth_input) (x : spec_extra) : bool :=
                            && negb (mem_bytes (fst kg) (sx_new_named x))
                            && (snd kg old =? snd kg new))) named_level_keys
             && same_keys (map fst (pl_events old)) (map fst (pl_events new))
-            && negb (mem_bytes tpi_type (map fst (pl_events old) ++ map fst (pl_events new)))
             && same_keys (map fst (pl_notifs old)) (map fst (pl_notifs new))
             && same_keys (map fst (pl_users old)) (map fst (pl_users new)))
   | None => false
